@@ -150,7 +150,7 @@ class C03(TreeSpec):
                 o = dict(o, mode="frac")
             ops.append(o)
         plan["ops"] = ops
-        plan["twin_scale"] = r.choice([2.0, 4.0, 3.0, 0.1, 7.5])
+        plan["twin_scale"] = r.choice([2.0, 4.0, 3.0, 0.1, 7.5, 100.0 / plan["cfg"]["capital"], 1000.0 / plan["cfg"]["capital"]])  # also down to a book of 100
         return plan
 
     def run(self, bt, plan):
